@@ -1219,6 +1219,14 @@ def sharing_docs() -> list[tuple[str, dict]]:
         P["/items"] = {"parameters": [{"name": "id", "in": "query", "schema": {"type": "integer"}}, {"name": "X-Trace-Id", "in": "header", "schema": {"type": "string"}}],
                        "get": {"operationId": "list_items", "parameters": [{"name": "id", "in": "query", "schema": {"type": "string"}}, {"name": "id", "in": "header", "schema": {"type": "string"}}], "responses": ok},
                        "post": {"operationId": "make_item", "parameters": [{"name": "X-Trace-Id", "in": "cookie", "schema": {"type": "string"}}], "responses": ok}}
+        # reusable parameters used by several operations, one of which also has the same name in another location
+        d["components"]["parameters"] = {"Version": {"name": "version", "in": "query", "schema": {"type": "string"}},
+                                         "Trace": {"name": "X-Trace", "in": "header", "schema": {"type": "string", "enum": ["on", "off"]}}}
+        PV, PT = {"$ref": "#/components/parameters/Version"}, {"$ref": "#/components/parameters/Trace"}
+        P["/versions"] = {"get": {"operationId": "list_versions", "parameters": [PV, PT], "responses": ok}}
+        P["/archive/{version}/things"] = {"get": {"operationId": "list_archived", "parameters": [{"name": "version", "in": "path", "required": True, "schema": {"type": "integer"}}, PV], "responses": ok},
+                                          "parameters": [PT]}
+        P["/versions/latest"] = {"get": {"operationId": "latest_version", "parameters": [PV, {"name": "X-Trace", "in": "cookie", "schema": {"type": "string"}}, PT], "responses": ok}}
         pk = list(P)
         pk = pk[variant % len(pk):] + pk[:variant % len(pk)]
         d["paths"] = {x: P[x] for x in pk}
